@@ -496,7 +496,8 @@ Section MddStruct.
     unfold as_graphviz, viz_terminal.
     destruct (rev (m_layers m)) as [|lastl rest] eqn:Hr.
     - exfalso. apply H. rewrite <- (rev_involutive (m_layers m)), Hr. reflexivity.
-    - destruct lastl; eexists; reflexivity.
+    - destruct lastl; [eexists; reflexivity|].
+      destruct (negb (is_pooled (ci_flavour inp)) && _); eexists; reflexivity.
   Qed.
 
   (* ================================================================ (2) the width bound (C13) *)
